@@ -24,15 +24,15 @@ type FieldParams struct {
 }
 
 type Verifier struct {
-	F       *Factory
-	prog    *ssa.Program
-	fset    *token.FileSet
-	pkgs    []*packages.Package
-	spkgs   map[string]*ssa.Package
-	tags    string
-	repo    string
-	params  map[string]*FieldParams // by package path
-	pinned  map[string]string       // package path -> pinned modulus (decimal)
+	F        *Factory
+	prog     *ssa.Program
+	fset     *token.FileSet
+	pkgs     []*packages.Package
+	spkgs    map[string]*ssa.Package
+	tags     string
+	repo     string
+	params   map[string]*FieldParams // by package path
+	pinned   map[string]string       // package path -> pinned modulus (decimal)
 	cfgCache map[*ssa.Function]*cfgInfo
 
 	contracts     map[string]*Contract // funcKey -> contract
